@@ -239,7 +239,15 @@ func yamlTranslateNode(node *yaml.Node) (any, error) {
 			return strconv.ParseInt(node.Value, 10, 64)
 
 		case "!!float":
-			return strconv.ParseFloat(node.Value, 64)
+			v, err := strconv.ParseFloat(node.Value, 64)
+			if err == nil {
+				return v, nil
+			}
+
+			// The spellings strconv does not know: .inf, -.inf, .nan
+			err = node.Decode(&v)
+
+			return v, err
 
 		case "!!null":
 			return nil, nil
